@@ -200,7 +200,8 @@ def check(case, rec):
             if not math.isclose(float(got), float(want), rel_tol=1e-12):
                 bad(kind, "%s %r, matrix gives %r" % (name, got, want))
     elif kind == "summarize":
-        from biom.cli.table_summarizer import summarize_table
+        from ..cli import command
+        summarize_table = command("summarize-table")
         qual, obs_mode = case["flag"], case["flag2"]
         rec.cls("summarize:%s%s" % ("qual" if qual else "quant",
                                     "+obs" if obs_mode else ""))
@@ -283,7 +284,8 @@ def check(case, rec):
             with h5py.File(p, "w") as f:
                 t.to_hdf5(f, "vf")
             if kind == "table_ids":
-                from biom.cli.table_ids import summarize_table as table_ids
+                from ..cli import command
+                table_ids = command("table-ids")
                 obs_mode = case["flag"]
                 out = run_cmd(table_ids, ["-i", p] + (["--observations"]
                                                       if obs_mode else []),
@@ -292,7 +294,8 @@ def check(case, rec):
                 if out.split("\n")[:-1] != want:
                     bad(kind, "printed %r, ids are %r" % (out, want))
             else:
-                from biom.cli.table_head import head
+                from ..cli import command
+                head = command("head")
                 hn, hm = case["n"], case["m"]
                 args = ["-i", p, "-n", str(hn), "-m", str(hm)]
                 if case["flag"]:
@@ -372,7 +375,8 @@ def check(case, rec):
                             (ax, c, i, got, cell(md[k], c)))
         else:
             import h5py
-            from biom.cli.metadata_exporter import export_metadata
+            from ..cli import command
+            export_metadata = command("export-metadata")
             if any(isinstance(v, list) and k != "taxonomy"
                    for k, v in md[0].items()):
                 rec.skip("list metadata under a non-reserved name")
